@@ -1,2 +1,14 @@
+from replay_common import *
+
+
 def prepare(rp, ce, params):
-    return None, "not replayed"
+    m = ce.get("model") or {}
+    S = (seq(m, "s") + [0] * 4)[:trace_val(ce, "slen")]
+    fields = dict(kind="vm_eval", stack=" ".join(map(str, S)), ops="")
+
+    def judge(out):
+        if "panic" in out: return True, "real code panics: " + out["panic"][:200]
+        want = None if (not S or S[-1] not in (0, 1)) else (S[-1] == 1)
+        got = None if out.get("result") != "ok" else (out.get("value") == "true")
+        return got != want, f"final stack {S}: documented result {'error' if want is None else want}, real {'error' if got is None else got} {out.get('err', '')[:80]}"
+    return fields, judge
